@@ -89,7 +89,9 @@ def run_case(case):
         n = int(rng.choice([384, 384, 384, 200, 33]))
         enc = "shank" if kind == "NPultra" else str(rng.choice(["shank", "geom"]))
         gains = G.random_gains(rng, "random" if rng.random() < 0.85 else "uniform")
-        aimax, maxint = ((0.5, 8192), (0.62, 2048), (0.62, 8192), (0.6, 512))[int(rng.integers(0, 4))] if kind.startswith("NP2") else (0.6, 512)
+        # NP1-family headers may declare their max-int too (and probes of that family with another ADC depth do)
+        aimax, maxint = ((0.5, 8192), (0.62, 2048), (0.62, 8192), (0.6, 512))[int(rng.integers(0, 4))] if kind.startswith("NP2") else \
+            ((0.6, 512), (0.6, 512), (0.6, 1024), (0.62, 2048))[int(rng.integers(0, 4))]
         stream = "lf" if rng.random() < 0.3 else "ap"          # the LF band of the same probes: its own gain column, the same sync word
         rec = G.make(rng, kind=kind, stream=stream, sites=G.draw_sites(rng, kind, n, mode), encoding=enc, gains=gains, ns=ns, aimax=aimax, maxint=maxint,
                      fs=float(rng.choice([30000.0, 30000.390639481])) if stream == "ap" else float(rng.choice([2500.0, 2500.0325])),
